@@ -115,7 +115,16 @@ class DataReader(object):
         return not self.EOD
 
     def _check_size(self):
-        if self.max_size and self.size > self.max_size and not self.too_big:
+        if not self.max_size or self.too_big:
+            return
+        size = self.size
+        if self.EOD is None and len(self.lines) > self.i:
+            # An unfinished line that may still turn out to be the end-of-data
+            # line does not count as message data yet.
+            partial = self.lines[self.i]
+            if partial_eod_pattern.match(partial):
+                size -= len(partial)
+        if size > self.max_size:
             self.too_big = True
             raise MessageTooBig()
 
